@@ -81,6 +81,21 @@ CHECKS = {
              "equal each other and the model.",
         design="6/C18", note="Read-only queries are covered by the source-parallelism obligation; their behaviour on LightNodeMixin trees is exercised by the query checks.",
         technique="Coq proof (pointwise monad equality) + generated AST-diff obligation + lock-step correspondence"),
+    "C04": dict(
+        text="Theorems (all trees, all positions): path/ancestors/root/depth (fuelled upward walks never run out), "
+             "is_root/is_leaf, siblings, descendants, leaves, size, height, leftsibling/rightsibling transcriptions equal "
+             "their definitions over (root tree, position). commonancestors is not yet proved (C04_commonancestors_full "
+             "visible) and decided by evaluating its spec on observations. Tie: every shape <= 5 nodes x every node x "
+             "commonancestors argument lists, AnyNode/NodeMixin/LightNodeMixin classes, a quarter of the trees reached "
+             "through mutation histories before reading.",
+        design="6/C04", note="plain classes (adversarial special methods: C17); node = (tree, position), heap bridge via C01.",
+        technique="Coq proof (induction over positions/trees) + exhaustive small-scope correspondence"),
+    "C15": dict(
+        text="Theorems: the zip-filter of the two root paths is the prefix list of the longest common prefix; walk = "
+             "(reversed tail of start path, node at lcp, tail of end path); lcp is the lowest common ancestor; mirror; "
+             "WalkError iff different trees. Tie: every forest <= 5 nodes x every ordered node pair.",
+        design="6/C15", note="nodes are (tree index, position).",
+        technique="Coq proof + exhaustive small-scope correspondence"),
 }
 
 NOT_YET = "check not built yet in this round (work in progress; see DESIGN.md section 6 for the plan)"
